@@ -92,6 +92,28 @@ func dice(rng *rng.RNG) func(int) int {
 	}
 }
 
+// checkedRandomRange is randomRange with its domain checked: an empty or overflowing range is an error
+func checkedRandomRange(rng *rng.RNG) func(int, int) (int, error) {
+	unchecked := randomRange(rng)
+	return func(lowerBound, upperBound int) (int, error) {
+		if size := upperBound - lowerBound + 1; upperBound < lowerBound || size <= 0 {
+			return 0, fmt.Errorf("random_range requires a non-empty range of at most %v integers, got [%v, %v]", math.MaxInt, lowerBound, upperBound)
+		}
+		return unchecked(lowerBound, upperBound), nil
+	}
+}
+
+// checkedDice is dice with its domain checked: a dice has at least one side
+func checkedDice(rng *rng.RNG) func(int) (int, error) {
+	unchecked := dice(rng)
+	return func(sides int) (int, error) {
+		if sides < 1 {
+			return 0, fmt.Errorf("dice requires at least one side, got %v", sides)
+		}
+		return unchecked(sides), nil
+	}
+}
+
 // round rounds f to the nearest integer
 func round(f float64) float64 {
 	return math.Round(f)
